@@ -366,11 +366,21 @@ def generate(tier):
     for c in CONFIGS:
         for w in _words(CFG_ALPHABET, 1):
             cases.append(("cfg", c, w))
+    # factors of ONE result must not share contracted indices either: the
+    # norm factor of order n against the series 1/(1 + sum_k S_k) built from
+    # the separately requested overlaps (added after seeded change C19_b)
+    for label in ("mp:0", "mp:1") if tier == "quick" else \
+            ("mp:0", "mp:1", "re:0"):
+        for n in (2, 3, 4) if tier == "quick" else (2, 3, 4, 5):
+            cases.append(("self", label, (n,)))
     return cases
 
 
 def describe(case):
     dim, label, word = case
+    if dim == "self":
+        return {"dimension": "self-consistency of norm_factor",
+                "ground_state": label, "order": list(word)}
     return {"dimension": dim, "label": label, "history": list(word),
             "probes": CFG_PROBES if dim == "cfg" else
             PROBES + (HIST_ONLY_PROBES if dim == "hist" else [])}
@@ -1289,7 +1299,49 @@ def run_case(case):
         return _run_engine(dim, label, word, PROBES, None)
     if dim == "cfg":
         return _run_engine(dim, label, word, CFG_PROBES, CONFIGS[label])
+    if dim == "self":
+        return _run_self(label, word[0])
     raise ValueError(case)
+
+
+def _run_self(label, n):
+    """norm_factor(n) == order-n coefficient of 1/(1 + sum_k S_k) with the
+    S_k = overlap(k) requested separately and multiplied as NUMBERS: factors
+    of one result that share contracted indices change the value"""
+    from adcgen import Operators, GroundState
+    from ..model import Space, Model
+    from ..evalexpr import evaluate
+    from .. import ring
+    var, singles = label.split(":")
+    gs = GroundState(Operators(var), first_order_singles=bool(int(singles)))
+    key = json.dumps(["self", label, n])
+    base = {"key": key, "transitions": n + 1, "nontrivial": n >= 4}
+    try:
+        nf = gs.norm_factor(n)
+        ov = {k: gs.overlap(k) for k in range(1, n + 1)}
+    except Exception:  # noqa
+        return [dict(base, status="violation", outcome="self:exception",
+                     finding="self-exception",
+                     detail=traceback.format_exc())]
+    model = Model(Space(3, 3, False))
+    s = [ring.ONE] + [evaluate(ov[k], (), model, expand=True).data.get(
+        (), ring.ZERO) for k in range(1, n + 1)]
+    # series of 1/(1+x), x = sum_{k>=1} s_k
+    inv = [ring.ONE] + [ring.ZERO] * n
+    for m in range(1, n + 1):
+        acc = ring.ZERO
+        for k in range(1, m + 1):
+            acc = acc + s[k] * inv[m - k]
+        inv[m] = -acc
+    got = evaluate(nf, (), model, expand=True).data.get((), ring.ZERO)
+    if not ring.equal(got, inv[n]):
+        return [dict(base, status="violation", outcome="self:value",
+                     finding="factors-of-one-result-share-contracted-indices",
+                     detail=f"GroundState({label}).norm_factor({n}) differs "
+                     "from the order-n coefficient of 1/(1 + sum_k S_k) "
+                     "computed from the separately requested overlaps: "
+                     f"{got!r} != {inv[n]!r}\nnorm_factor = {nf}")]
+    return [dict(base, status="ok", outcome=f"self:nf{n}:{label}")]
 
 
 def finalize(tier, results):
